@@ -86,3 +86,26 @@ func encNode(v reflect.Value) any {
 	}
 	panic(fmt.Sprintf("EncAST: unsupported kind %s (%s): the AST gained a field shape the encoder does not know", v.Kind(), v.Type()))
 }
+
+// EncCode converts the dumped bytecode into the JSON shape VM.tla reads:
+// {"op":..., "v":{"val":V} | {"n":k} | {"id","ix"} | {"id","cnt","argc"} | {"native","argc"}}.
+func EncCode(dump []gojq.VerifInstr) []any {
+	out := make([]any, len(dump))
+	for i, in := range dump {
+		m := M{"op": in.Op}
+		switch {
+		case in.HasVal:
+			m["v"] = M{"val": EncVal(in.Val)}
+		case in.N != nil:
+			m["v"] = M{"n": *in.N}
+		case in.Var != nil:
+			m["v"] = M{"id": in.Var[0], "ix": in.Var[1]}
+		case in.Scope != nil:
+			m["v"] = M{"id": in.Scope[0], "cnt": in.Scope[1], "argc": in.Scope[2]}
+		case in.Native != "":
+			m["v"] = M{"native": in.Native, "argc": in.Argc}
+		}
+		out[i] = m
+	}
+	return out
+}
